@@ -29,11 +29,24 @@ var (
 
 func setCase(text string) { wdCase.Store(text) }
 
+// wall-clock limit of one harness run (seconds; 0 = none): a run that exceeds it writes its report and ends
+// instead of living on when whoever started it has gone away
+var maxWall int
+
 func startWatchdog(limit int) {
 	go func() {
 		last, stale := int64(-1), 0
+		t0 := time.Now()
 		for {
 			time.Sleep(time.Second)
+			if maxWall > 0 && time.Since(t0) > time.Duration(maxWall)*time.Second {
+				c := wdCtx
+				in, _ := wdCase.Load().(string)
+				c.violate(Violation{Suite: "watchdog", Kind: "correspondence", Class: "harness-wall-limit",
+					Desc: fmt.Sprintf("the harness run exceeded its wall-clock limit of %d s (last case below)", maxWall), Input: clip(in)})
+				writeReport(c, wdOut)
+				os.Exit(1)
+			}
 			p := atomic.LoadInt64(&wdProgress)
 			if atomic.LoadInt32(&wdInCall) == 1 && p == last {
 				stale++
@@ -182,6 +195,7 @@ func main() {
 	facts := flag.String("facts", "", "write the facts table (registries, constants) as JSON to this file and exit")
 	dict := flag.String("dict", "", "dictionary.json written by tools/extract (literals of the current source)")
 	dictBase := flag.String("dict-base", "", "dictionary of the pinned tree (committed): literals not in it are drawn preferentially")
+	flag.IntVar(&maxWall, "maxwall", 0, "wall-clock limit of this run in seconds (0: none)")
 	flag.Parse()
 	if *dict != "" {
 		loadDict(*dict, *dictBase)
